@@ -195,6 +195,8 @@ func poolPairs(a *ChildArgs) []poolPair {
 		}
 		out = append(out, poolPair{Name: strings.TrimPrefix(n, "Get"), Get: g, Put: p, Elem: g.Type().Out(0).Elem()})
 	}
+	// the tree container itself: its accessors are not named Get/Put
+	out = append(out, poolPair{Name: "AST", Get: reflect.ValueOf(ast.NewAST), Put: reflect.ValueOf(ast.ReleaseAST), Elem: reflect.TypeOf(ast.AST{})})
 	return out
 }
 
@@ -599,6 +601,17 @@ func c09Ownership(a *ChildArgs, workers int) {
 					if t, err := gosqlx.Parse(sql); err == nil {
 						tabs, cols := gosqlx.ExtractTables(t), gosqlx.ExtractColumnsQualified(t)
 						md := gosqlx.ExtractMetadata(t)
+						// a tree in a recycled container is that statement's tree and nothing else: the combined extraction
+						// agrees with the single ones made from the same tree a moment ago
+						if md != nil {
+							x, y := append([]string(nil), tabs...), append([]string(nil), md.Tables...)
+							sort.Strings(x)
+							sort.Strings(y)
+							if strings.Join(x, ",") != strings.Join(y, ",") {
+								a.Rec.Viol("C09/own/extracted/metadata-of-another-tree", "every container obtained from the pools is indistinguishable from a freshly constructed one, whatever was released into the pools before",
+									fmt.Sprintf("ExtractTables gives %v, ExtractMetadata on the same tree gives %v", x, y), map[string]interface{}{"history": hist, "sql": sql})
+							}
+						}
 						holds = append(holds, held{What: "extracted", Snap: dump.Dump([]interface{}{tabs, cols, md}), Get: func() string { return dump.Dump([]interface{}{tabs, cols, md}) }})
 						ast.ReleaseAST(t)
 					}
@@ -668,6 +681,7 @@ func c09Child(a *ChildArgs) {
 	case "cleanliness":
 		c09Cleanliness(a)
 		c09Distinct(a)
+		c09CancelDistinct(a)
 		c09Lent(a)
 	case "ownership":
 		runtime.GOMAXPROCS(1)
@@ -734,6 +748,75 @@ func c09Lent(a *ChildArgs) {
 			if len(again) != n || again[i] == nil {
 				a.Rec.Viol("C09/lent/scanner-rules-shared", "returned values belong to the caller", "writing into the slice returned by Scanner.Rules changed the scanner's own rule list", nil)
 				break
+			}
+		}
+	}
+}
+
+// c09CancelDistinct: a parse that is cancelled at any of its polls (statement start, expression, every 256th token)
+// gives its containers back at most once: afterwards no pool hands the same object to two holders.
+func c09CancelDistinct(a *ChildArgs) {
+	runtime.GOMAXPROCS(1)
+	debug.SetGCPercent(-1)
+	defer debug.SetGCPercent(100)
+	pairs := poolPairs(a)
+	cols := make([]string, 400)
+	for i := range cols {
+		cols[i] = fmt.Sprintf("c%d", i)
+	}
+	list := strings.Join(cols, ", ")
+	texts := []struct{ name, sql string }{
+		{"select-400-columns", "SELECT " + list + " FROM t"},
+		{"insert-400-columns", "INSERT INTO t (" + list + ") VALUES (1)"},
+		{"from-400-tables", "SELECT * FROM " + list + " WHERE a = 1"},
+		{"two-statements", "SELECT " + strings.Join(cols[:150], ", ") + " FROM t; SELECT " + strings.Join(cols[:150], " + ") + " FROM u"},
+		{"nested-query", "SELECT a FROM t WHERE b IN (SELECT " + list + " FROM u) AND c = 1"},
+	}
+	for _, tx := range texts {
+		toks, err := mustTokenizer().Tokenize([]byte(tx.sql))
+		if err != nil {
+			continue
+		}
+		probe := newCountingCtx(-1, context.Canceled)
+		if t, err := parser.NewParser().ParseContextFromModelTokens(probe, toks); err == nil && t != nil {
+			ast.ReleaseAST(t)
+		}
+		total := probe.Polls
+		a.Rec.Sample("cancel-distinct", 5, map[string]interface{}{"text": tx.name, "polls_of_a_complete_call": total, "tokens": len(toks)})
+		for k := 0; k <= total+1; k++ {
+			ctx := newCountingCtx(k, context.Canceled)
+			t, err := parser.NewParser().ParseContextFromModelTokens(ctx, toks)
+			if err == nil && t != nil {
+				ast.ReleaseAST(t)
+			}
+			a.Rec.Count("evaluations", 1)
+			a.Rec.Distinct("cases", fmt.Sprintf("cancel-distinct/%s/%d", tx.name, k))
+			for _, pp := range pairs {
+				seen := map[uintptr]int{}
+				var taken []reflect.Value
+				dup := false
+				for j := 0; j < 4; j++ {
+					v := pp.Get.Call(nil)[0]
+					if i, d := seen[v.Pointer()]; d {
+						a.Rec.Viol("C09/pool-aliased-after-cancel/"+pp.Name, "every container obtained from the pools is indistinguishable from a fresh one (two holders never share one object)",
+							fmt.Sprintf("after a parse of %s cancelled at its poll %d of %d, Get%s returned the same object as get #%d and get #%d", tx.name, k, total, pp.Name, i, j),
+							map[string]interface{}{"text": tx.name, "cancelled_at_poll": k, "polls_of_a_complete_call": total, "pool": pp.Name})
+						dup = true
+						break
+					}
+					seen[v.Pointer()] = j
+					taken = append(taken, v)
+				}
+				if dup {
+					// the pool is corrupt from here on: drop what was taken instead of giving it back
+					continue
+				}
+				for _, v := range taken {
+					if v.Elem().Kind() == reflect.Struct {
+						v.Elem().Set(reflect.Zero(v.Elem().Type()))
+					}
+					pp.Put.Call([]reflect.Value{v})
+				}
 			}
 		}
 	}
